@@ -2,6 +2,7 @@ package checks
 
 import (
 	"bytes"
+	"context"
 	"encoding/binary"
 	"encoding/hex"
 	"encoding/json"
@@ -14,6 +15,7 @@ import (
 	"runtime/debug"
 	"runtime/metrics"
 	"strings"
+	"time"
 
 	"github.com/twpayne/go-geom"
 	"github.com/twpayne/go-geom/encoding/ewkb"
@@ -52,7 +54,7 @@ type c04Case struct {
 func init() {
 	engine.Register(&engine.Check{
 		ID: "C04", Level: "model_checking",
-		Rule:   "states = decision points of a reference WKB/EWKB reader model (byte order, type word, SRID, counts per level, coordinate blocks, truncation, trailing bytes); DFS over all field-choice sequences with <=3 (quick) / <=4 (thorough) non-default choices, <=14 fields, for WKB, WKB-NaN and EWKB under limit configurations {-1,0,2}^3 (quick) / {-1,0,1,2}^3 (thorough); every generated string is decoded by Unmarshal, hex Decode and Scan and compared with the model verdict OK(geometry)/TooLarge{level,n,limit}/Error (an input the model rejects may be accepted by a more liberal decoder if the result is well formed and canonical; an input the model accepts must be accepted when it is the standard encoding); forged counts are tried in ascending magnitude with the heap-allocation delta measured around each decode; plus a role-blind sweep (every prefix, every byte x 5 values, every 4-byte word x count menu) of every corpus encoding under enabled limits, and a nesting-depth family in a sacrificial subprocess Also: valid encodings with 100..4000 (thorough 16000) one-to-three-position rings / lines / points / polygons / collection members decoded with the allocation measured (must stay additive in the input length); an SRID word on every kind at every nesting level, generation starting from a collection / multipolygon / multilinestring as outermost kind, and intact encodings with one coordinate array of 2^k+1 positions (k=11..16) decoded, re-encoded and decoded again. Round 10: 100/1000/3000 nested collections cut off before the innermost member (an error, allocation additive in the input length).",
+		Rule:   "states = decision points of a reference WKB/EWKB reader model (byte order, type word, SRID, counts per level, coordinate blocks, truncation, trailing bytes); DFS over all field-choice sequences with <=3 (quick) / <=4 (thorough) non-default choices, <=14 fields, for WKB, WKB-NaN and EWKB under limit configurations {-1,0,2}^3 (quick) / {-1,0,1,2}^3 (thorough); every generated string is decoded by Unmarshal, hex Decode and Scan and compared with the model verdict OK(geometry)/TooLarge{level,n,limit}/Error (an input the model rejects may be accepted by a more liberal decoder if the result is well formed and canonical; an input the model accepts must be accepted when it is the standard encoding); forged counts are tried in ascending magnitude with the heap-allocation delta measured around each decode; plus a role-blind sweep (every prefix, every byte x 5 values, every 4-byte word x count menu) of every corpus encoding under enabled limits, and a nesting-depth family in a sacrificial subprocess Also: valid encodings with 100..4000 (thorough 16000) one-to-three-position rings / lines / points / polygons / collection members decoded with the allocation measured (must stay additive in the input length); an SRID word on every kind at every nesting level, generation starting from a collection / multipolygon / multilinestring as outermost kind, and intact encodings with one coordinate array of 2^k+1 positions (k=11..16) decoded, re-encoded and decoded again. Round 10: 100/1000/3000 nested collections cut off before the innermost member (an error, allocation additive in the input length). Round 12: the deepest complete nested decode of the thorough tier is 10^5 levels (the library builds the result in quadratic time); every depth probe under a 12-minute deadline.",
 		Run:    c04Run,
 		Replay: func(c *engine.Ctx, kind string, raw json.RawMessage) { c04Exec(c, decodeCase[c04Case](raw)) },
 		Assumptions: []string{
@@ -1156,7 +1158,10 @@ func c04Run(c *engine.Ctx) {
 	// (3) nesting depth family
 	levels := []int{10, 100, 1000, 10000}
 	if c.Thorough() {
-		levels = append(levels, 100000, 1000000)
+		// (building the nested result costs the library time quadratic in the depth - 57 s at 80 000
+		// levels, hours at 10^6 - so 10^5 is the deepest complete decode; the descent alone is linear
+		// and is taken to 4*10^6 below)
+		levels = append(levels, 100000)
 	}
 	for _, ext := range []bool{false, true} {
 		for _, n := range levels {
@@ -1416,11 +1421,18 @@ func c04Depth(c *engine.Ctx, cs c04Case) {
 	if cs.Ext {
 		name = "ewkb"
 	}
-	cmd := exec.Command(os.Args[0], "deepnest", fmt.Sprint(cs.Ext), fmt.Sprint(cs.Levels), fmt.Sprint(cs.StackMB))
+	ctx, cancel := context.WithTimeout(context.Background(), 12*time.Minute)
+	defer cancel()
+	cmd := exec.CommandContext(ctx, os.Args[0], "deepnest", fmt.Sprint(cs.Ext), fmt.Sprint(cs.Levels), fmt.Sprint(cs.StackMB))
 	var out bytes.Buffer
 	cmd.Stdout = &out
 	cmd.Stderr = &out
 	err := cmd.Run()
+	if ctx.Err() != nil {
+		// no verdict: slow is not wrong
+		c.SetCapped(fmt.Sprintf("nesting-depth probe (%s, %d levels) stopped after 12 minutes without a verdict", name, cs.Levels))
+		return
+	}
 	if err == nil {
 		c.Count("depth_ok", 1)
 		c.Sample("depth", 4, map[string]any{"format": name, "levels": cs.Levels, "max_stack_mb": cs.StackMB, "result": strings.TrimSpace(out.String())})
